@@ -17,6 +17,7 @@ verus! {
 pub enum FCall {
     BeginArray, EndArray, BeginArrayValue(bool), EndArrayValue,
     BeginObject, EndObject, BeginObjectKey(bool), EndObjectKey, BeginObjectValue, EndObjectValue,
+    StrValue(Seq<u8>),
     Other(int),
 }
 pub mod io {
@@ -99,7 +100,56 @@ impl<'a, W: WriteExt, F: Formatter> Compound<'a, W, F> {
     }
 }
 
+pub uninterp spec fn sbytes(s: &str) -> Seq<u8>;
 impl<'a, W: WriteExt, F: Formatter> Serializer<W, F> {
+    // serialize_str -> write_string_fast -> format_string (the escaper: not under contract, DESIGN §9): one event
+    #[verifier::external_body]
+    pub fn serialize_str(&mut self, value: &str) -> (r: Result<()>)
+        ensures r.is_ok() ==> final(self).formatter.calls() == old(self).formatter.calls().push(FCall::StrValue(sbytes(value))),
+            final(self).formatter.failed() ==> (old(self).formatter.failed() || r.is_err()),
+    { unimplemented!() }
+
+    /// `{"Variant":` — the frame serde's externally tagged variants open
+    pub open spec fn variant_open(variant: &str) -> Seq<FCall> {
+        seq![FCall::BeginObject, FCall::BeginObjectKey(true), FCall::StrValue(sbytes(variant)), FCall::EndObjectKey, FCall::BeginObjectValue]
+    }
+
+//@extract file=src/serde/ser.rs impl="ser::Serializer for &'a mut Serializer<W, F>" fn=serialize_newtype_variant
+//@subst /fn serialize_newtype_variant<T>\(\s*self,/ => fn serialize_newtype_variant<T>(&'a mut self,
+//@subst /\.map_err\(Error::io\)/ => .map_io() #all
+//@sig
+        requires !old(self).formatter.failed(),
+        ensures
+            res.is_ok() ==> final(self).formatter.calls() == old(self).formatter.calls() + Self::variant_open(variant) + value.events() + seq![FCall::EndObjectValue, FCall::EndObject],
+            final(self).formatter.failed() ==> res.is_err(),
+//@end
+
+//@extract file=src/serde/ser.rs impl="ser::Serializer for &'a mut Serializer<W, F>" fn=serialize_tuple_variant
+//@subst /fn serialize_tuple_variant\(\s*self,/ => fn serialize_tuple_variant(&'a mut self,
+//@subst /Self::SerializeTupleVariant/ => Compound<'a, W, F>
+//@subst /\.map_err\(Error::io\)/ => .map_io() #all
+//@sig
+        requires !old(self).formatter.failed(),
+        ensures
+            res.is_ok() ==> res->Ok_0 is Map && res->Ok_0.fut_ser() == *final(self)
+                && res->Ok_0.cur_calls() == old(self).formatter.calls() + Self::variant_open(variant) + seq![FCall::BeginArray] + (if len == 0 { seq![FCall::EndArray] } else { Seq::<FCall>::empty() })
+                && (res->Ok_0->state is Empty) == (len == 0) && (len != 0 ==> res->Ok_0->state is First)
+                && !res->Ok_0.cur_failed(),
+//@end
+
+//@extract file=src/serde/ser.rs impl="ser::Serializer for &'a mut Serializer<W, F>" fn=serialize_struct_variant
+//@subst /fn serialize_struct_variant\(\s*self,/ => fn serialize_struct_variant(&'a mut self,
+//@subst /Self::SerializeStructVariant/ => Compound<'a, W, F>
+//@subst /\.map_err\(Error::io\)/ => .map_io() #all
+//@sig
+        requires !old(self).formatter.failed(),
+        ensures
+            res.is_ok() ==> res->Ok_0 is Map && res->Ok_0.fut_ser() == *final(self)
+                && res->Ok_0.cur_calls() == old(self).formatter.calls() + Self::variant_open(variant) + seq![FCall::BeginObject] + (if len == 0 { seq![FCall::EndObject] } else { Seq::<FCall>::empty() })
+                && (res->Ok_0->state is Empty) == (len == 0) && (len != 0 ==> res->Ok_0->state is First)
+                && !res->Ok_0.cur_failed(),
+//@end
+
 //@extract file=src/serde/ser.rs impl="ser::Serializer for &'a mut Serializer<W, F>" fn=serialize_seq
 //@subst /fn serialize_seq\(self,/ => fn serialize_seq(&'a mut self,
 //@subst /Self::SerializeSeq/ => Compound<'a, W, F>
@@ -146,6 +196,26 @@ impl<'a, W: WriteExt, F: Formatter> Compound<'a, W, F> {
         requires self is Map, !self.cur_failed(),
         ensures
             res.is_ok() ==> self.fut_ser().formatter.calls() == self.cur_calls() + (if self->state is Empty { Seq::<FCall>::empty() } else { seq![FCall::EndArray] }),
+            self.fut_ser().formatter.failed() ==> res.is_err(),
+//@end
+
+//@extract file=src/serde/ser.rs impl="ser::SerializeTupleVariant for Compound<'a, W, F>" fn=end
+//@subst /\.map_err\(Error::io\)/ => .map_io() #all
+//@subst /fn end\(self\)/ => fn end_tuple_variant(self)
+//@sig
+        requires self is Map, !self.cur_failed(),
+        ensures
+            res.is_ok() ==> self.fut_ser().formatter.calls() == self.cur_calls() + (if self->state is Empty { Seq::<FCall>::empty() } else { seq![FCall::EndArray] }) + seq![FCall::EndObjectValue, FCall::EndObject],
+            self.fut_ser().formatter.failed() ==> res.is_err(),
+//@end
+
+//@extract file=src/serde/ser.rs impl="ser::SerializeStructVariant for Compound<'a, W, F>" fn=end
+//@subst /\.map_err\(Error::io\)/ => .map_io() #all
+//@subst /fn end\(self\)/ => fn end_struct_variant(self)
+//@sig
+        requires self is Map, !self.cur_failed(),
+        ensures
+            res.is_ok() ==> self.fut_ser().formatter.calls() == self.cur_calls() + (if self->state is Empty { Seq::<FCall>::empty() } else { seq![FCall::EndObject] }) + seq![FCall::EndObjectValue, FCall::EndObject],
             self.fut_ser().formatter.failed() ==> res.is_err(),
 //@end
 
